@@ -16,7 +16,7 @@ PROPS = {
         explanation='theorems for every message, size and arrival sequence (Props.C14: bounded, lossless, only complete streams, exactly once); model tied to fragmentation.go by function-level differential runs (fragment/parseFragment/receiveFragment) and whole-session runs with hostile fragment arrivals; Go oracle: size bound, reference reassembly, no double delivery',
         assumptions=['instance tags < 2^32', 'piece count <= 65535 (16-bit index/total of the wire format; beyond it the message is handed out whole)', 'encoded messages contain no comma (Proofs.B64)']),
     'C07': dict(
-        module='Props.C07', level='proof',
+        module='Props.C07', extra_modules=['Props.C07Skel'], level='proof',
         profiles=dict(quick=[('c07', 400, 1)], thorough=[('c07', 400, 1), ('life', 150, 4)]),
         explanation='verified exhaustive exploration of an abstract two-party AKE system (Otr.AkeAbs, explore_sound) decides liveness for every start pattern and every delivery schedule; the abstraction is tied to the implementation by running every maximal schedule of every pattern on the real code (both versions) and comparing final states',
         assumptions=['time is frozen within an exchange (the 60 s repeat-query window does not expire)', 'cryptographic checks are abstracted to identifier equality', 'known finding: simultaneous start deadlocks (test-pinned)']),
@@ -36,20 +36,20 @@ PROPS = {
         explanation='theorems over all histories (Props.C19: at most 4 counters and 4 MAC-history entries, reveal queue at most 3 keys per message accepted since the last send and emptied by each send); Go oracle measures counters, MAC history, reveal queue, resend queue, injections and the reveal field of every emitted message along long runs',
         assumptions=['the session-wide constant 3 for the reveal queue is proved for two honest parties over reliable FIFO channels (Props.C19Two); with a peer that moves on to its announced key with every message the queue grows until our next send', 'heap size beyond the modelled lists is not measured here (see C08)']),
     'C15': dict(
-        module='Props.C15', level='proof',
+        module='Props.C15', extra_modules=['Props.C15Recv'], level='proof',
         profiles=dict(quick=[('tags', 40, 1), ('reject', 60, 1)], thorough=[('tags', 200, 6), ('reject', 400, 6)]),
         explanation='exact decision table of verifyInstanceTags and own-tag generation for all inputs and all randomness (Props.C15); tied to otrv3.go/instance_tags.go by differential runs over the 7x7 tag grid on several message kinds and fragments, before and after binding; Go oracle: foreign/malformed traffic changes nothing and the genuine peer still gets through; ExtractInstanceTags compared with what the sender wrote',
         assumptions=['ExtractInstanceTags is modelled and compared differentially, its theorem is the header round trip only', 'known finding: InitializeInstanceTag accepts a preset tag below 0x100 (test-pinned)']),
     'C16': dict(
-        module='Props.C16', level='proof',
+        module='Props.C16', extra_modules=['Props.C16Api'], level='proof',
         profiles=dict(quick=[('policy', 500, 1)], thorough=[('policy', 4600, 2), ('life', 100, 2)]),
         explanation='version choice, query/whitespace-tag version extraction for EVERY policy pair and friendly text, stickiness, disabled pass-through and exact plaintext recovery as theorems (Props.C16); tied to version.go/query.go/whitespace.go/send.go/receive.go by differential runs over policy pairs (full 64x64 product in the thorough tier) and offer forms',
         assumptions=['plain-text exactness needs the first occurrence of the tag header in text++tag to be at |text| (the 16-byte header has period 15: inherent to the tag format)']),
     'C18': dict(
-        module='Props.C18', extra_modules=['Props.C18Api'], level='proof',
+        module='Props.C18', extra_modules=['Props.C18Api', 'Props.C18Hist'], level='proof',
         profiles=dict(quick=[('lifecycle', 15, 1), ('lifecyclebfs', 400, 1)], thorough=[('lifecycle', 120, 8), ('lifecyclebfs', 3000, 1), ('lifecyclex', 5000, 1), ('life', 150, 4)]),
         explanation='exact effect of the three writers of the message state on state and security events, refusal in the finished state, queueing under required encryption (Props.C18); writers regenerated from /repo as facts; Go oracle over whole lifecycle histories: events exactly on IsEncrypted transitions, each text delivered at most once plus at most one marked resend, queued texts in order',
-        assumptions=['retransmission discipline over whole histories is decided by the oracle + correspondence of the resend bookkeeping, not by a theorem']),
+        assumptions=['retransmission bookkeeping over whole API histories is a theorem (Props.C18Hist: what is retained is the single most recent message or a tail of the queue awaiting encryption; after a retransmission nothing is retained; only Send adds); the count of transmissions per text over whole two-party histories is decided by the oracle']),
     'C03': dict(
         module='Props.C03', level='proof',
         profiles=dict(quick=[('lifecycle', 15, 1), ('lifecyclebfs', 300, 1), ('parse', 20, 1), ('spec', 12, 1)], thorough=[('lifecycle', 120, 8), ('lifecyclebfs', 3000, 1), ('life', 150, 4), ('policy', 1000, 1), ('parse', 200, 2), ('spec', 40, 2)]),
@@ -76,7 +76,7 @@ PROPS = {
         explanation='algebraic theorems for all exponents and secrets (Props.C11: honest proofs verify, equal secrets succeed on both sides, different secrets fail on both sides given p, q prime); model tied to smp*.go by differential runs with real 1536-bit arithmetic; Go oracle over honest runs (secret pairs incl. empty/long/binary/one bit apart, question, either initiator, back to back, traffic in between, both versions) and a relay between two separately keyed sessions',
         assumptions=['Nat.Prime p and Nat.Prime q are hypotheses of c11_unequal_fail (no primality certificate available offline)', 'the honest proof exponents are non-zero (hypothesis of the success theorems: a 2^-1535 event in which the library, like libotr, rejects an honest message)', 'binding of the hashed secret to fingerprints and SSID relies on collision resistance of SHA-256']),
     'C12': dict(
-        module='Props.C12', extra_modules=['Props.C12Recv'], level='proof',
+        module='Props.C12', extra_modules=['Props.C12Recv', 'Props.C12Machine'], level='proof',
         profiles=dict(quick=[('smp', 40, 1), ('spec', 12, 1)], thorough=[('smp', 300, 8), ('parse', 200, 2), ('spec', 40, 2)]),
         explanation='success-event guard for every message and state, no-panic theorems after the group checks, state-machine invariant (Props.C12); Go oracle sends SMP messages authenticated by the genuine peer with one field replaced by a boundary value / perturbed / miscounted / truncated, plus user calls out of sequence, and requires no success, no panic, and a successful honest run afterwards',
         assumptions=['soundness of the zero-knowledge proofs against non-degenerate cheating is computational: covered by generated inputs only', 'known finding: OTRv2 accepts degenerate group elements (test-pinned)']),
